@@ -21,20 +21,10 @@ EntityTranslation rsOperationFacet::MergeWith(const RSForm& schema2) {
     insertionOrder.emplace_back(entity);
   }
 
-  StrSubstitutes contextReplace{};
   EntityTranslation equateParams{};
-  SetOfEntities inserted{};
-  for (const auto entity : insertionOrder) {
-    const auto& etalon = schema2.GetRS(entity);
-    const auto& newCst = core.GetRS(core.InsertCopy(entity, schema2.Core()));
-    contextReplace.insert({ etalon.alias, newCst.alias });
-    inserted.insert(newCst.uid);
-    equateParams.Insert(entity, newCst.uid);
-  }
-
-  const auto mapping = CreateTranslator(contextReplace);
-  for (const auto entity : inserted) {
-    core.core.Translate(entity, mapping);
+  const auto inserted = core.core.InsertCopy(insertionOrder, schema2.Core());
+  for (auto i = 0U; i < std::size(insertionOrder); ++i) {
+    equateParams.Insert(insertionOrder.at(i), inserted.at(i));
   }
   core.NotifyModification();
   return equateParams;
